@@ -17,6 +17,7 @@ def run(facts, tier):
         ("probe extent", lambda fa: hll_rules.probe_extent(fa, ("theta", "tuple")), 1, "the resized table is probed with the lg size it was allocated with"),
         ("rebuild precondition", T.rebuild_precondition, 2, "rebuild() is only called with strictly more than nominal-size entries"),
         ("builder/reset", T.builder_reset, 2, "reset() restores theta through the builder's helper; re-reads follow member resets"),
+        ("tautologies", lambda fa: generic_lints.tautologies(fa, ('theta/',)), 2, "no comparison / assignment / min-max with two identical operands, no if-else with identical arms"),
         ("duplicate operands", lambda fa: generic_lints.duplicate_conjuncts(fa, ('theta/',)), 2, "no logical chain tests the same operand twice (copy-paste of the wrong peer)"),
         ("structural triggers", lambda fa: triggers.obligations(fa, ['theta_update_sketch_base']), 3, "the comparisons that decide when to resize / rebuild / compact / purge / promote keep their reviewed boundary (operator and constants)"),
     ):
